@@ -5,6 +5,7 @@ import Driver.SpecifiersDrv
 import Driver.ArithDrv
 import Driver.CnipDrv
 import Driver.PositionsDrv
+import Driver.TreeDrv
 /-! `psymodel <component>`: reads one case per line on stdin, answers one line per case. -/
 
 partial def loop (h : IO.FS.Stream) (out : IO.FS.Stream) (f : String → String) : IO Unit := do
@@ -24,4 +25,5 @@ def main (args : List String) : IO UInt32 := do
   | ["arith"] => loop stdin stdout Driver.ArithDrv.handle; return 0
   | ["cnip"] => loop stdin stdout Driver.CnipDrv.handle; return 0
   | ["positions"] => loop stdin stdout Driver.PositionsDrv.handle; return 0
+  | ["tree"] => loop stdin stdout Driver.TreeDrv.handle; return 0
   | _ => IO.eprintln "usage: psymodel <component>"; return 2
